@@ -233,9 +233,53 @@ fn durable_op(req: &Value) -> Value {
     json!({"key": key, "put_ok": put_ok, "delete_ok": del_ok, "records": kinds, "records_after_put": n_after_put})
 }
 
+/// W5: r1, cut inside it, reopen, append r2, cut inside it, reopen, append r3, restart; which records the final replay has.
+macro_rules! double_crash {
+    ($name:ident, $open:expr, $rec:expr) => {
+        fn $name(req: &Value) -> Value {
+            let mframe = req["frame_len"].as_u64().unwrap_or(10);
+            let (c1, c2) = (req["cut1"].as_u64().unwrap_or(0), req["cut2"].as_u64().unwrap_or(0));
+            let dir = tmpdir();
+            let path = dir.join("double.wal");
+            let len = |p: &std::path::Path| std::fs::metadata(p).map(|m| m.len()).unwrap_or(0);
+            let mut errs: Vec<String> = vec![];
+            let mut base = 0u64;
+            for (i, cut) in [(1u64, Some(c1)), (2, Some(c2)), (3, None)] {
+                match $open(&path) {
+                    Ok(mut w) => { if let Err(e) = w.append(&$rec(i)) { errs.push(format!("append {i}: {e}")); } },
+                    Err(e) => errs.push(format!("open before {i}: {e}")),
+                }
+                let end = len(&path);
+                if let Some(c) = cut {
+                    let real = end.saturating_sub(base);
+                    let at = base + map_offset(c, mframe, real.max(1));
+                    OpenOptions::new().write(true).open(&path).unwrap().set_len(at.min(end)).unwrap();
+                }
+                // the next append starts where recovery leaves the file
+                if let Ok(w) = $open(&path) { drop(w); }
+                base = len(&path);
+            }
+            let got: Vec<u64> = match $open(&path).map_err(|e| e.to_string()).and_then(|w| w.replay().map_err(|e| e.to_string())) {
+                Ok(es) => (1..=3u64).filter(|i| es.contains(&$rec(*i))).collect(),
+                Err(e) => { errs.push(format!("final replay: {e}")); vec![] },
+            };
+            let _ = std::fs::remove_dir_all(&dir);
+            json!({"present": got, "errors": errs})
+        }
+    };
+}
+double_crash!(raft_double, |p: &std::path::Path| RaftWal::open(p), raft_rec);
+double_crash!(tx_double, |p: &std::path::Path| TxWal::open(p), tx_rec);
+double_crash!(tensor_double, |p: &std::path::Path| TensorWal::open(p, WalConfig::default()), ts_rec);
+
 pub fn handle(op: &str, req: &Value) -> Option<Value> {
     Some(match op {
         "durable_op" => durable_op(req),
+        "wal_double" => match req["wal"].as_str().unwrap_or("") {
+            "raft-double" => raft_double(req),
+            "tx-double" => tx_double(req),
+            _ => tensor_double(req),
+        },
         "wal_manual" => tensor_manual(req),
         "wal_torn" => match req["wal"].as_str().unwrap_or("") {
             "raft" => raft_torn(req),
